@@ -473,6 +473,7 @@ def handle (prop kind : String) (fs : List (String × String)) : String :=
   match kind with
   | "leave" => handleLeave fs
   | "leak" => s!"DISAGREE BAD:goroutines-still-blocked-after-shutdown:{getD fs "msg" "?"} nt=0 br=leak "
+  | "stuck" => s!"DISAGREE BAD:scenario-made-no-progress-for-{getD fs "after" "?"}-of-real-time(virtual-time-cannot-advance:a-goroutine-waits-for-a-lock) nt=0 br=stuck "
   | "src" => handleSrc fs
   | "conc" => handleConc fs
   | "hist" => handleHist prop fs
